@@ -1,59 +1,59 @@
-/* C18: secp256k1_ellswift_create / _encode - failure gates, output zeroing, PRNG seeding stream, output layout.
+/* C18: secp256k1_ellswift_create / _encode - failure cases, what reaches the encoder, output layout.
  * The encoder search secp256k1_ellswift_elligatorswift_var is replaced by an ASSUMED oracle with a log
- * (assumed_C18.h); ecmult_gen / ge_set_gej likewise.  SHA-256 object: stream contracts (hash_log.h).
- * Real code: key parsing/masking, normalisation, serialisation, seeding writes, fe_get_b32, memczero.
- *   h_ellswift_create  ret = (0 < seckey < n); static/unbuilt context, NULL => illegal; EVERY failure => ell64 = 0^64;
- *                      seeding stream = "secp256k1_ellswift_create" midstate || seckey32 || 0^32 [|| auxrnd32];
- *                      the point encoded is seckey*G as returned by the oracles, normalised; ell64 = u32 || be32(t).
- *   h_ellswift_encode  invalid pubkey object => illegal, ret 0, ell64 = 0^64; seeding stream = "secp256k1_ellswift_encode"
- *                      midstate || ser33(P) || 0^31 || rnd32; ell64 = u32 || be32(t). */
+ * (assumed_C18.h); ecmult_gen / ge_set_gej likewise.  secp256k1_sha256_write is replaced by a frame contract with
+ * CONTENT flags (assumed_C18.h, C18_WRITE_FLAGS).
+ * Rule followed (audit 1): include/secp256k1_ellswift.h says the computed encoding is NOT stable across versions, so
+ * nothing about the layout of the randomness derivation is demanded.  Kept:
+ *   h_ellswift_create  ret = (0 < seckey < n); static/unbuilt context or NULL => illegal, ret 0 (nothing demanded of
+ *                      ell64 on failure: the header is silent); on success: the generator is multiplied by the key,
+ *                      the point encoded is that product (mod p), the secret key - and auxrnd32 when given - have been
+ *                      absorbed into a hash before the encoder runs, ell64 = u32 || be32(t) as the encoder produced.
+ *   h_ellswift_encode  invalid pubkey object => illegal, ret 0; valid: ret 1, the point encoded is the public key,
+ *                      rnd32 has been absorbed before the encoder runs, ell64 = u32 || be32(t).
+ * Opaque pubkey decoded through the TU's own ge_from_bytes (spec.h views). */
+#define C18_WRITE_FLAGS
 #include "assumed_C18.h"
-#include "hash_log.h"
 #include "../C04/spec.h"
 #include "src/secp256k1.c"
 #include "post.h"
+#define SPEC_VIEWS
+#include "../C04/spec.h"
 #define GEJ_EQ(a, b) (FE_EQ((a).x, (b).x) && FE_EQ((a).y, (b).y) && FE_EQ((a).z, (b).z) && (a).infinity == (b).infinity)
 
 #ifdef U_ELLSWIFT_CREATE
 void h_ellswift_create(void) {
     secp256k1_context ctx;
     INPUT_ARR(unsigned char, ell, 64); INPUT_ARR(unsigned char, key, 32); INPUT_ARR(unsigned char, aux, 32);
-    INPUT(_Bool, use_ell); INPUT(_Bool, use_key); INPUT(_Bool, use_aux); INPUT(int, built); INPUT(int, we); INPUT(uint64_t, wpos); INPUT(size_t, k);
+    INPUT(_Bool, use_ell); INPUT(_Bool, use_key); INPUT(_Bool, use_aux); INPUT(int, built); INPUT(size_t, k);
     int ret; sp kv = sp_be32(key);
     verif_ctx_init(&ctx); ctx.ecmult_gen_ctx.built = built;
     ctx.hash_ctx.fn_sha256_compression = secp256k1_sha256_transform;
-    HASHLOG_RESET(); g_we = we; g_wpos = wpos; g_gen_n = 0; g_sg_n = 0; g_es_n = 0;
-    __CPROVER_assume(k < 64);
+    g_gen_n = 0; g_sg_n = 0; g_es_n = 0; g_saw_a = 0; g_saw_b = 0;
+    memcpy(g_wk_a, key, 32); memcpy(g_wk_b, aux, 32);
+    __CPROVER_assume(k < 32);
     ret = secp256k1_ellswift_create(&ctx, use_ell ? ell : NULL, use_key ? key : NULL, use_aux ? aux : NULL);
     __CPROVER_assert(g_error == 0, "C18 ellswift_create: error callback never invoked");
-    if (!use_ell) __CPROVER_assert(ret == 0 && g_illegal == 1 && g_gen_n == 0, "C18 ellswift_create: NULL output is illegal and returns 0");
-    else if (!built || !use_key) __CPROVER_assert(ret == 0 && g_illegal == 1 && g_gen_n == 0 && g_es_n == 0 && ell[k] == 0, "C18 ellswift_create: static/unbuilt context or NULL key is illegal, returns 0, output zeroed");
+    if (!use_ell || !use_key) __CPROVER_assert(ret == 0 && g_illegal == 1, "C18 ellswift_create: NULL output or key is illegal and returns 0");
+    else if (!built) __CPROVER_assert(ret == 0 && g_illegal == 1, "C18 ellswift_create: static/unbuilt context is illegal and returns 0");
     else {
         __CPROVER_assert(g_illegal == 0, "C18 ellswift_create: no illegal callback for proper arguments (auxrnd32 may be NULL)");
         __CPROVER_assert(ret == sp_seckey_valid(kv), "C18 ellswift_create: returns 1 exactly for 0 < seckey < n");
-        if (ret == 0) __CPROVER_assert(ell[k] == 0, "C18 ellswift_create: invalid key leaves 64 zero bytes");
-        __CPROVER_assert(g_gen_n == 1 && sp_eq(sval(&g_gen_a0), ret ? kv : sp_u64(1)), "C18 ellswift_create: generator multiplied by the key (masked to 1 if invalid)");
-        __CPROVER_assert(g_sg_n == 1 && GEJ_EQ(g_sg_a0, g_gen_r0), "C18 ellswift_create: the point converted is the multiplication result");
-        __CPROVER_assert(g_es_n == 1 && sp_eq(fval(&g_es_px), sp_modp(fval(&g_sg_r0.x))) && sp_eq(fval(&g_es_py), sp_modp(fval(&g_sg_r0.y))), "C18 ellswift_create: the point encoded is that point, normalised");
-        __CPROVER_assert(g_fin_n == 0 && g_es_hbytes == (use_aux ? 160 : 128), "C18 ellswift_create: PRNG seed is 64 (+32 with auxrnd32) bytes after the tag");
-        if (g_we == 0) {
-            __CPROVER_assert(g_w_started && g_w_b0 == 64 && g_w_s0 == 0xd29e1bf5ul && g_w_s7 == 0x4e363b53ul, "C18 ellswift_create: PRNG starts from the secp256k1_ellswift_create tag midstate");
-            if (g_wpos >= 64 && g_wpos < (use_aux ? 160 : 128)) {
-                __CPROVER_assert(g_w_hit, "C18 ellswift_create: every seed position is written");
-                if (g_wpos < 96) __CPROVER_assert(g_w_byte == key[g_wpos - 64], "C18 ellswift_create: seed bytes 0..31 are the secret key");
-                else if (g_wpos < 128) __CPROVER_assert(g_w_byte == 0, "C18 ellswift_create: seed bytes 32..63 are zero");
-                else __CPROVER_assert(g_w_byte == aux[g_wpos - 128], "C18 ellswift_create: seed bytes 64..95 are auxrnd32");
-            }
-        }
         if (ret == 1) {
-            __CPROVER_assert(k >= 32 || ell[k] == g_es_u[k], "C18 ellswift_create: ell64[0..31] is the u the encoder produced");
-            __CPROVER_assert(sp_eq(sp_be32(ell + 32), fval(&g_es_t)), "C18 ellswift_create: ell64[32..63] is the big-endian t the encoder produced");
+            __CPROVER_assert(g_gen_n >= 1 && sp_eq(sval(&g_gen_a0), kv), "C18 ellswift_create: the generator is multiplied by the key");
+            __CPROVER_assert(g_sg_n >= 1 && GEJ_EQ(g_sg_a0, g_gen_r0), "C18 ellswift_create: the point converted is the multiplication result");
+            __CPROVER_assert(g_es_n >= 1 && sp_eq(sp_modp(fval(&g_es_px)), sp_modp(fval(&g_sg_r0.x))) && sp_eq(sp_modp(fval(&g_es_py)), sp_modp(fval(&g_sg_r0.y))), "C18 ellswift_create: the point encoded is that point (mod p)");
+            __CPROVER_assert(g_es_saw_a, "C18 ellswift_create: the secret key has been absorbed into a hash before the encoder runs");
+            if (use_aux) __CPROVER_assert(g_es_saw_b, "C18 ellswift_create: auxrnd32 has been absorbed into a hash before the encoder runs");
+            __CPROVER_assert(ell[k] == g_es_u[k], "C18 ellswift_create: ell64[0..31] is the u the encoder produced");
+            __CPROVER_assert(sp_eq(sp_be32(ell + 32), sp_modp(fval(&g_es_t))), "C18 ellswift_create: ell64[32..63] is the big-endian t the encoder produced");
         }
         if (ret == 1 && use_aux) REACH("ellswift_create success with auxrnd");
-        if (ret == 1 && !use_aux && g_we == 0 && g_wpos == 100) REACH("ellswift_create success without auxrnd, watching a zero byte");
+        if (ret == 1 && !use_aux) REACH("ellswift_create success without auxrnd");
         if (ret == 0 && !sp_is0(kv)) REACH("ellswift_create key >= n");
+        if (ret == 0 && sp_is0(kv)) REACH("ellswift_create zero key");
     }
-    if (use_ell && !built) REACH("ellswift_create static context");
+    if (use_ell && use_key && !built) REACH("ellswift_create static context");
+    if (!use_ell || !use_key) REACH("ellswift_create NULL argument");
 }
 #endif
 
@@ -61,35 +61,27 @@ void h_ellswift_create(void) {
 void h_ellswift_encode(void) {
     secp256k1_context ctx;
     INPUT_ARR(unsigned char, ell, 64); INPUT(secp256k1_pubkey, pk); INPUT_ARR(unsigned char, rnd, 32);
-    INPUT(_Bool, use_ell); INPUT(_Bool, use_pk); INPUT(_Bool, use_rnd); INPUT(int, we); INPUT(uint64_t, wpos); INPUT(size_t, k);
-    int ret; sp xv = sp_le32(pk.data), yv = sp_le32(pk.data + 32), xn, yn;
+    INPUT(_Bool, use_ell); INPUT(_Bool, use_pk); INPUT(_Bool, use_rnd); INPUT(size_t, k);
+    int ret, inv; sp xv, yv;
     verif_ctx_init(&ctx);
     ctx.hash_ctx.fn_sha256_compression = secp256k1_sha256_transform;
-    HASHLOG_RESET(); g_we = we; g_wpos = wpos; g_es_n = 0;
-    __CPROVER_assume(k < 64);
+    g_es_n = 0; g_saw_a = 0; g_saw_b = 0;
+    memcpy(g_wk_a, rnd, 32); memcpy(g_wk_b, rnd, 32);
+    __CPROVER_assume(k < 32);
+    view_pk64(pk.data, &xv, &yv, &inv);
     ret = secp256k1_ellswift_encode(&ctx, use_ell ? ell : NULL, use_pk ? &pk : NULL, use_rnd ? rnd : NULL);
     __CPROVER_assert(g_error == 0, "C18 ellswift_encode: error callback never invoked");
-    if (!use_ell || !use_pk || !use_rnd) __CPROVER_assert(ret == 0 && g_illegal == 1 && g_es_n == 0, "C18 ellswift_encode: NULL argument is illegal and returns 0");
-    else if (sp_is0(xv)) __CPROVER_assert(ret == 0 && g_illegal == 1 && g_es_n == 0 && ell[k] == 0, "C18 ellswift_encode: invalid pubkey object is illegal, returns 0, output zeroed");
+    if (!use_ell || !use_pk || !use_rnd) __CPROVER_assert(ret == 0 && g_illegal == 1, "C18 ellswift_encode: NULL argument is illegal and returns 0");
+    else if (inv) __CPROVER_assert(ret == 0 && g_illegal == 1, "C18 ellswift_encode: invalid pubkey object is illegal and returns 0");
     else {
-        xn = sp_modp(xv); yn = sp_modp(yv);
         __CPROVER_assert(ret == 1 && g_illegal == 0, "C18 ellswift_encode: returns 1 for every valid pubkey object");
-        __CPROVER_assert(g_es_n == 1 && sp_eq(fval(&g_es_px), xn) && sp_eq(fval(&g_es_py), yn), "C18 ellswift_encode: the point encoded is the public key, normalised");
-        __CPROVER_assert(g_fin_n == 0 && g_es_hbytes == 160, "C18 ellswift_encode: PRNG seed is 96 bytes after the tag");
-        if (g_we == 0) {
-            __CPROVER_assert(g_w_started && g_w_b0 == 64 && g_w_s0 == 0xd1a6524bul && g_w_s7 == 0xd626b715ul, "C18 ellswift_encode: PRNG starts from the secp256k1_ellswift_encode tag midstate");
-            if (g_wpos >= 64 && g_wpos < 160) {
-                __CPROVER_assert(g_w_hit, "C18 ellswift_encode: every seed position is written");
-                if (g_wpos == 64) __CPROVER_assert(g_w_byte == (0x02 | sp_odd(yn)), "C18 ellswift_encode: seed byte 0 is the compressed-encoding tag");
-                else if (g_wpos < 97) __CPROVER_assert(W(g_w_byte) == ((xn >> (8 * (96 - (unsigned)g_wpos))) & W(0xff)), "C18 ellswift_encode: seed bytes 1..32 are the big-endian x coordinate");
-                else if (g_wpos < 128) __CPROVER_assert(g_w_byte == 0, "C18 ellswift_encode: seed bytes 33..63 are zero");
-                else __CPROVER_assert(g_w_byte == rnd[g_wpos - 128], "C18 ellswift_encode: seed bytes 64..95 are rnd32");
-            }
-        }
-        __CPROVER_assert(k >= 32 || ell[k] == g_es_u[k], "C18 ellswift_encode: ell64[0..31] is the u the encoder produced");
-        __CPROVER_assert(sp_eq(sp_be32(ell + 32), fval(&g_es_t)), "C18 ellswift_encode: ell64[32..63] is the big-endian t the encoder produced");
-        if (g_we == 0 && g_wpos == 80) REACH("ellswift_encode success, watching an x byte");
+        __CPROVER_assert(g_es_n >= 1 && sp_eq(sp_modp(fval(&g_es_px)), xv) && sp_eq(sp_modp(fval(&g_es_py)), yv), "C18 ellswift_encode: the point encoded is the public key (mod p)");
+        __CPROVER_assert(g_es_saw_a, "C18 ellswift_encode: rnd32 has been absorbed into a hash before the encoder runs");
+        __CPROVER_assert(ell[k] == g_es_u[k], "C18 ellswift_encode: ell64[0..31] is the u the encoder produced");
+        __CPROVER_assert(sp_eq(sp_be32(ell + 32), sp_modp(fval(&g_es_t))), "C18 ellswift_encode: ell64[32..63] is the big-endian t the encoder produced");
+        REACH("ellswift_encode success");
     }
-    if (use_ell && use_pk && use_rnd && ret == 0) REACH("ellswift_encode invalid pubkey");
+    if (use_ell && use_pk && use_rnd && inv) REACH("ellswift_encode invalid pubkey");
+    if (!use_ell || !use_pk || !use_rnd) REACH("ellswift_encode NULL argument");
 }
 #endif
